@@ -449,7 +449,9 @@ def evaluate__sum(self: XPathFunction, context: ta.ContextType = None) -> ta.One
         raise self.error('FORG0006') from None
 
     if not values:
-        zero = 0 if len(self) == 1 else self.get_argument(context, index=1)
+        if len(self) == 1:
+            return 0
+        zero = self[1].get_atomized_operand(context)  # xs:anyAtomicType?
         return [] if zero is None else zero
 
     if self.parser.version != '1.0':
